@@ -150,7 +150,7 @@ def MatOK (d : Nat) (p : Layout × Mat) : Prop :=
   WfA p.2 ∧ (p.1 = .nonbigmat → p.2.rows < 65536) ∧
     ∀ col ∈ p.2.cols, ∀ x ∈ col, ∀ b ∈ entryDs p.2.cplx x, Fits d b
 
-theorem rdMatrixA_decOf (dformat : Bool) (d : Nat) (hd : 2 ≤ d) (hp : 1 ≤ perline d) (p : Layout × Mat)
+theorem rdMatrixA_decOf (dformat : Bool) (d : Nat) (hd : 1 ≤ d) (hp : 1 ≤ perline d) (p : Layout × Mat)
     (hok : MatOK d p) (rest : List Str) :
     ∃ a, rdMatrixA dformat (matLines d p.1 p.2 ++ rest) = some (some (a, rest)) ∧ ADecOf d p a := by
   obtain ⟨hwf, hnb, hfit⟩ := hok
@@ -160,7 +160,7 @@ theorem rdMatrixA_decOf (dformat : Bool) (d : Nat) (hd : 2 ≤ d) (hp : 1 ≤ pe
 theorem matLines_ne_nil (d : Nat) (lay : Layout) (m : Mat) : 1 ≤ (matLines d lay m).length := by
   simp [matLines]
 
-theorem rdFileA_enc (dformat : Bool) (d : Nat) (hd : 2 ≤ d) (hp : 1 ≤ perline d) :
+theorem rdFileA_enc (dformat : Bool) (d : Nat) (hd : 1 ≤ d) (hp : 1 ≤ perline d) :
     ∀ (ms : List (Layout × Mat)) (fuel : Nat), ms.length + 1 ≤ fuel → (∀ p ∈ ms, MatOK d p) →
       ∃ ds, rdFileA dformat fuel (ms.flatMap fun p => matLines d p.1 p.2) = some ds ∧ Forall₂ (ADecOf d) ms ds := by
   intro ms
@@ -223,7 +223,7 @@ theorem isAsciiFile_enc (d : Nat) (p : Layout × Mat) (t : List (Layout × Mat))
   exact (hch c (List.mem_of_mem_take hc)).toNat_ne_zero
 
 /-- `op4.load` on a written ASCII file -/
-theorem loadAscii_enc (d : Nat) (hd : 2 ≤ d) (hp : 1 ≤ perline d) (ms : List (Layout × Mat)) (hne : ms ≠ [])
+theorem loadAscii_enc (d : Nat) (hd : 1 ≤ d) (hp : 1 ≤ perline d) (ms : List (Layout × Mat)) (hne : ms ≠ [])
     (hok : ∀ p ∈ ms, MatOK d p) :
     ∃ ds, loadAscii (encFileAsciiFx d ms) = some ds ∧ Forall₂ (ADecOf d) ms ds := by
   have hlines := (encFileAscii_isLines d hp ms fun p hp' => (hok p hp').1).eq
